@@ -352,6 +352,9 @@ Proof.
     apply (IH (KPairs (n - 1) kt vt d) s2 Hp2). lia.
 Qed.
 
+Lemma depth_eq : Z.to_nat skip_limit = max_skip_depth.
+Proof. reflexivity. Qed.
+
 Theorem skip_refines t :
   match skip_go_m t bs with
   | Ok s => skip_go t bs = Some (skipn (Z.to_nat (cur s)) bs)
@@ -360,11 +363,20 @@ Theorem skip_refines t :
   end.
 Proof.
   pose proof (srun_ref (fuel_for bs) (KVal t skip_limit) st0 (inv_st0 bs)) as H.
-  pose proof (skip_go_progress bs t) as Hp. unfold skip_go_m in *.
-  cbn [sref] in H. change (suffix bs st0) with bs in H.
-  change (Z.to_nat skip_limit) with max_skip_depth in H. fold (skip_go t bs) in H.
-  destruct (srun bs (fuel_for bs) (KVal t skip_limit) st0); cbn [oref] in H; try assumption.
+  pose proof (skip_go_progress bs t) as Hp. unfold skip_go_m in *. unfold skip_go.
+  unfold sref in H. rewrite depth_eq in H. change (suffix bs st0) with bs in H.
+  destruct (srun bs (fuel_for bs) (KVal t skip_limit) st0); unfold oref in H; try assumption.
   congruence.
 Qed.
+
+(* general form: any start state, any depth budget, any fuel *)
+Theorem srun_ref_val fuel t d s : inv bs s ->
+  match srun bs fuel (KVal t d) s with
+  | Ok s' => skip (Z.to_nat d) t (suffix bs s) = Some (suffix bs s')
+  | Er _ _ => skip (Z.to_nat d) t (suffix bs s) = None
+  | OutOfFuel => True
+  | _ => False
+  end.
+Proof. intros Hs. exact (srun_ref fuel (KVal t d) s Hs). Qed.
 
 End SkipRefine.
